@@ -8,8 +8,7 @@ K5 (added) the aggregation runs over the join with the released keys: Reduce::di
 """
 from . import facts
 from .core import Src, Anchor, find, walk, walk_guards, show, path_of, is_call_to, strip_generics
-from .util_dpflow import FnEnv, norm, strip_wrappers, chain_root, callee_name, pat_ident, contains
-from .c03 import SeedTaint, strip_try, _tail_expr, _closures
+from .util_dpflow import FnEnv, norm, strip_wrappers, chain_root, callee_name, pat_ident, contains, strip_try, _tail_expr, _closures
 
 LEVEL = "other"
 EXHAUSTIVE = False
@@ -85,7 +84,7 @@ def k1(rep, src, T):
         "parameter agreement in PupRelation::tau_thresholding_values: the max-groups parameter Cu is, unchanged, the cap given to limit_col_contributions (on the privacy-unit column), "
         "`(Cu as f64).sqrt()` the sensitivity of gaussian_noise and `Cu as f64` the third argument of gaussian_tau; gaussian_noise, gaussian_tau and DpEvent::epsilon_delta receive the "
         "function's own epsilon and delta; inside gaussian_tau sigma is gaussian_noise(epsilon, delta, Cu.sqrt()) of its own parameters",
-        floor=8,
+        floor=5,
         necessary="tau is derived for units that touch at most Cu groups with noise of scale sigma(eps, delta, sqrt(Cu)): a different cap, sensitivity or budget at any of the three sites makes the threshold too low for the noise actually applied",
     )
     f, env = T.f, T.env
@@ -251,7 +250,7 @@ def k2(rep, src, T):
         "pipeline order in tau_thresholding_values (def-use chain with shadowing, from `self` to every non-error return): unique(keys + privacy unit) -> limit_col_contributions -> "
         "Reduce whose aggregate named C is count(privacy unit) and whose group-by expressions are the keys -> add_gaussian_noise on column C with the sigma of K1 -> filter_columns on column C -> "
         "filter_fields keeping only keys (C is removed); the same `keys` collection (schema of self minus the privacy-unit columns) feeds unique, the group-by and the released fields",
-        floor=8,
+        floor=7,
         necessary="dropping or reordering a stage releases keys that were not thresholded: counting rows instead of distinct capped units, filtering before the noise, or returning the un-filtered relation",
     )
     f, env = T.f, T.env
@@ -649,7 +648,7 @@ def k4(rep, src):
             if s["k"] == "let" and s.get("init") is not None and evn in [x["name"] for x in walk(s["pat"]) if x["k"] == "ident"]:
                 src_let = s
         tcall = [t for t in taus if src_let is not None and contains(src_let["init"], t)]
-        ok_ev = bool(tcall) and all(a is b for a, b in zip(g, _guards_of(f.body, src_let))) and len(g) == len(_guards_of(f.body, src_let))
+        ok_ev = bool(tcall) and _same_guards(g, _guards_of(f.body, src_let))
         ok_rel = False
         reln = path_of(strip_wrappers(rel))
         rinit = None
@@ -706,6 +705,10 @@ def k4(rep, src):
             rep.undecidable("K4", fq + "@leaf", "a branch of dp_values returns `%s`: neither a tau_thresholding_values(..) call nor Ok(DpRelation::new(..))" % (show(lf, 80) if lf is not None else "()"), f.where())
     if not taus:
         rep.violation("K4", fq + "@thresholding", "dp_values never calls tau_thresholding_values", f.where())
+
+
+def _same_guards(g1, g2):
+    return len(g1) == len(g2) and all(a[0] == b[0] and a[1] is b[1] and a[2] == b[2] for a, b in zip(g1, g2))
 
 
 def _guards_of(body, node):
@@ -832,6 +835,105 @@ def k5(rep, src):
 # =========================================================================== run
 
 
+def _num(e):
+    if e["k"] == "lit" and e["t"] in ("int", "float"):
+        try:
+            return float(e["v"].replace("_", ""))
+        except ValueError:
+            return None
+    return None
+
+
+def _binop(e, op):
+    if e["k"] == "binary" and e["op"] == op:
+        return e["lhs"], e["rhs"]
+    return None
+
+
+def k6(rep, src):
+    """tau = 1 + sigma(eps, delta, sqrt(Cu)) * Phi^-1((1 - delta)^(1/Cu))   (closed term in dp_event.rs)"""
+    from .flow import Taint
+
+    rep.rule(
+        "K6",
+        "the threshold formula of dp_event::gaussian_tau is 1 + scale * Normal(0,1).inverse_cdf((1 - delta).powf(1 / Cu)) with scale = gaussian_noise(epsilon, delta, sqrt(Cu)) (term shape, + and * commutative)",
+        floor=1,
+        necessary="any smaller quantile (e.g. 1 - delta^(1/Cu)) gives a tau below the one the (epsilon, delta) share requires: a key held by one unit is released with probability far above delta",
+    )
+    f = src.one_fn(name="gaussian_tau", file="differential_privacy/dp_event.rs")
+    ps = [p["pat"]["name"] for p in f.params if p["pat"]["k"] == "ident"]
+    if len(ps) != 3:
+        rep.undecidable("K6", "gaussian_tau@params", "expected (epsilon, delta, max_privacy_unit_groups)", f.where())
+        return
+    eps, delta, cu = ps
+    lets = {}
+    for st in f.body["stmts"]:
+        if st["k"] == "let" and st["pat"]["k"] == "ident" and st.get("init") is not None:
+            lets[st["pat"]["name"]] = st["init"]
+    tail = f.body["stmts"][-1]["e"] if f.body["stmts"] and f.body["stmts"][-1]["k"] == "expr" and not f.body["stmts"][-1].get("semi") else None
+    key = "dp_event::gaussian_tau"
+    problems = []
+
+    def resolve(e):
+        while e["k"] == "path" and len(e["segs"]) == 1 and e["segs"][0] in lets:
+            e = lets[e["segs"][0]]
+        return e
+
+    def is_param(e, nm):
+        e = resolve(e)
+        return e["k"] == "path" and e["segs"] == [nm]
+
+    quant = None
+    scale = None
+    if tail is None:
+        problems.append("no tail expression")
+    else:
+        pm = _binop(tail, "+")
+        if not pm:
+            problems.append("tau is not of the form 1 + scale * quantile")
+        else:
+            a, b = pm
+            one, prod = (a, b) if _num(a) is not None else (b, a)
+            if _num(one) != 1.0:
+                problems.append("the additive constant is %s, expected 1" % show(one))
+            mm = _binop(resolve(prod), "*")
+            if not mm:
+                problems.append("the second summand is not scale * quantile")
+            else:
+                x, y = resolve(mm[0]), resolve(mm[1])
+                for u, v in ((x, y), (y, x)):
+                    if u["k"] == "mcall" and u["m"] == "inverse_cdf":
+                        quant, scale = u, v
+                if quant is None:
+                    problems.append("no inverse_cdf factor")
+    if quant is not None:
+        arg = resolve(quant["args"][0])
+        okq = False
+        if arg["k"] == "mcall" and arg["m"] == "powf" and len(arg["args"]) == 1:
+            base = _binop(resolve(arg["recv"]), "-")
+            ex = _binop(resolve(arg["args"][0]), "/")
+            okq = bool(base and _num(base[0]) == 1.0 and is_param(base[1], delta) and ex and _num(ex[0]) == 1.0 and is_param(ex[1], cu))
+        if not okq:
+            problems.append("the quantile is `%s`, expected (1 - %s).powf(1 / %s)" % (show(arg, 120), delta, cu))
+        dist = resolve(quant["recv"])
+        okd = is_call_to(dist if dist["k"] == "call" else (dist["recv"] if dist["k"] == "mcall" else dist), "Normal::new")
+        if okd:
+            c = dist if dist["k"] == "call" else dist["recv"]
+            okd = len(c["args"]) == 2 and _num(c["args"][0]) == 0.0 and _num(c["args"][1]) == 1.0
+        if not okd:
+            problems.append("the quantile is not taken from Normal::new(0, 1): %s" % show(dist, 80))
+        sc = resolve(scale)
+        oks = is_call_to(sc, "gaussian_noise") and len(sc["args"]) == 3 and is_param(sc["args"][0], eps) and is_param(sc["args"][1], delta)
+        if oks:
+            third = resolve(sc["args"][2])
+            oks = third["k"] == "mcall" and third["m"] == "sqrt" and is_param(third["recv"], cu)
+        if not oks:
+            problems.append("scale is `%s`, expected gaussian_noise(%s, %s, %s.sqrt())" % (show(sc, 120), eps, delta, cu))
+    rep.instance("K6", key, {"tau": show(tail, 200), "scale": show(lets.get("scale"), 120) if "scale" in lets else None, "problems": problems})
+    for p in problems:
+        rep.violation("K6", key, p, f.where())
+
+
 def run(rep):
     rep.explanation = (
         "Static def-use / term rules over the syn AST for 'grouping keys are released only if public or above tau'. Decides, on the source of PupRelation::tau_thresholding_values, "
@@ -839,7 +941,7 @@ def run(rep):
         "feed the contribution cap, the noise, tau and the event (K1); the stages dedupe -> cap -> count distinct units by key -> noise -> filter -> project are chained in this order on every "
         "non-error return (K2); tau is a strict lower bound on the noisy count, conjoined (K3); the no-op branch is gated by 'all key columns public' and the mixed branch cross-joins public values "
         "with thresholded ones under the thresholding event (K4); the aggregation runs over the left-outer join with the released keys (K5). "
-        "NOT decided: the tau formula and the Gaussian calibration (numeric), the randomness and SQL semantics of limit_col_contributions / unique (their bodies are not analysed here), "
+        "tau has the closed form 1 + sigma * Phi^-1((1-delta)^(1/Cu)) (K6) and no builder restores the unprotected input after the protected one was attached (B1). NOT decided: the Gaussian calibration itself (numeric), the randomness and SQL semantics of limit_col_contributions / unique (their bodies are not analysed here), "
         "that public value sets are what the schema says (C07), execution of the produced SQL."
     )
     src = Src(facts.src_facts())
@@ -849,5 +951,11 @@ def run(rep):
     k3(rep, src, T)
     k4(rep, src)
     k5(rep, src)
+    k6(rep, src)
+    # builder call order (MIR def-use, shared with C05): .with(node) never after .input/.left/.right
+    from .c05 import b1
+    from .mir import Mir
+
+    b1(rep, Mir(facts.mir_facts()), ["differential_privacy::", "relation::rewriting::"], rid="B1")
     rep.assume("rustc accepts the tree (the syn facts are parsed from the same files the build uses)")
     rep.assume("method names unique / limit_col_contributions / add_gaussian_noise / filter_columns / filter_fields on a Relation resolve to relation/rewriting.rs (no other impl defines them for Relation)")
